@@ -7,7 +7,7 @@ Everything the machine does not track (text buffers, produced values) evaluates 
 Reported: stack-safety violations (pop of the bottom element, top of an empty stack, machine-specific hooks), push-back cycles,
 reads of the cursor other than the push-back, configurations the interpreter cannot represent (as 'undecided', never as a pass)."""
 import ir, bytesets
-from ir import strip, strip_lv, const_val, T, pe, walk_expr
+from ir import strip, strip_lv, const_val, T, pe, walk_expr, fn_exprs
 
 U = 'UNKNOWN'
 K = 2          # exact window of each abstract stack
@@ -358,6 +358,34 @@ class Machine:
             return max(lo, min(hi, v))
         return v
 
+    def pure_scalar(self, e):
+        """the call is of a free function with by-value scalar parameters and a scalar result that writes nothing but its own
+        locals: its value can be computed from the argument values (bytesets / scansim), whatever its body looks like"""
+        if e.get('k') != 'call' or e.get('clsp') or e.get('obj') is not None or not e.get('fn'):
+            return False
+        cache = self.__dict__.setdefault('_pure_cache', {})
+        key = (e.get('fn'), e.get('sig'))
+        if key in cache:
+            return cache[key]
+        ok = False
+        cands = [g for g in self.prog.fn(e['fn'], e.get('sig')) if g.get('body')]
+        if cands:
+            g = cands[0]
+            ok = all(T(g, p_['t']).get('int') and not T(g, p_['t']).get('ref') and not T(g, p_['t']).get('ptr') for p_ in g['params']) and bool(T(g, g.get('ret')).get('int'))
+            if ok:
+                for w in fn_exprs(g):
+                    tgt = None
+                    if w.get('k') == 'bin' and w.get('op', '').endswith('=') and w['op'] not in ('==', '!=', '<=', '>='):
+                        tgt = strip_lv(w['x'])
+                    elif w.get('k') == 'un' and w.get('op') in ('post++', 'pre++', 'post--', 'pre--'):
+                        tgt = strip_lv(w['e'])
+                    elif w.get('k') == 'call' and not (w.get('fn') in bytesets.LIBC):
+                        ok = False
+                    if tgt is not None and not (tgt.get('k') == 'var' and tgt.get('vk') in ('local', 'param')):
+                        ok = False
+        cache[key] = ok
+        return ok
+
     def ev_call(self, e, env, c):
         short = (e.get('pq') or e.get('fn') or '').split('::')[-1]
         # stack queries
@@ -384,7 +412,7 @@ class Machine:
                             break
                     return 0
             return U
-        if short in self.d.get('pure', ()):
+        if short in self.d.get('pure', ()) or self.pure_scalar(e):
             args = [self.ev(a, env, c) for a in e.get('a', [])]
             if any(a is U for a in args):
                 return U
@@ -448,6 +476,9 @@ class Machine:
                 yield e1, None
             return
         if k == 'if':
+            if s.get('cv') is not None and s['cv'].get('init') is not None:
+                # `if (T x = e)`: x is a local of this statement
+                env.locals[s['cv']['id']] = self.ev(s['cv']['init'], env, c)
             cv = self.ev(s['c'], env, c)
             branches = []
             if cv is U:
@@ -680,7 +711,7 @@ class Machine:
             finally:
                 self.f = saved_f
             return out(results)
-        if e.get('k') == 'call' and not e.get('clsp') and (short in ('memchr', 'strchr') or short in self.d.get('pure', ())):
+        if e.get('k') == 'call' and not e.get('clsp') and (short in ('memchr', 'strchr') or short in self.d.get('pure', ()) or self.pure_scalar(e)):
             return out([env], self.ev_call(e, env, c))       # side-effect-free: its value is wanted (table look-ups)
         for a in e.get('a', []):
             self.ev(a, env, c)
